@@ -21,9 +21,18 @@ META = {
                   'string_length_in_chars / string_accepted_iff (string limits count code points, not encoded bytes), change_sound / '
                   'change_total / change_eq_accept / change_ok_partial (what a `change` request stores: import, validate against the '
                   'value held, validate once more in the write wrapper), command_argument_ok (what a `do` request hands to the command '
-                  'function), inSetB_sound / inSetB_complete / judgeChange_sound.  The '
+                  'function), call_ofType_sound + call_denotes = call_ok (the conversion-only path __call__ - driver updates, results '
+                  'of commands - returns a value of the type, OfType = the value set with the limits of the numeric leaves left '
+                  'out, that denotes the value handed over, ConvDenotes), inSet_ofType, none_of_no_type / command_none_refused / '
+                  'command_result_ok / command_result_total / command_do_ok / command_do_total (Command.do for EVERY command '
+                  'function: the function is called with the validated argument, its return value is handed back converted to '
+                  'the declared result type or refused - None is no result), shortrepr_total / raiseBad_is_bad (the helper that '
+                  'builds the text of every bad-value error of the scalar types answers for every candidate, whatever repr does), '
+                  'inSetB_sound / inSetB_complete / ofTypeB_sound / judgeChange_sound / judgeResult_sound / judgeConv_sound.  The '
                   'models are tied to frappy/datatypes.py by a correspondence run on the real classes and, for the glue '
-                  '(dispatcher._setParameterValue + write wrapper, Command.do), by `change` and `do` requests to a real SecNode; the Lean monitors are '
+                  '(dispatcher._setParameterValue + write wrapper, Command.do incl. its result conversion), by `change` and `do` requests '
+                  'to a real SecNode and by calls of Command.do with command functions returning every candidate; shortrepr by a '
+                  'text-level correspondence on candidates of every size; the Lean monitors are '
                   '`decide` of the specification Props themselves.',
     'level_note': 'Trusted: Lean kernel + axioms propext/Classical.choice/Quot.sound; the 27 laws of LawfulFloatOps for binary64 (all '
                   'proved for the exact carrier Rat; re-tested on the doubles of every run - a test).  SnapIdem (the one hypothesis '
@@ -32,8 +41,13 @@ META = {
                   'idem clause on every accepted value; GridExact / GridAll are the older per-tree forms.  validate_idem_statement '
                   '(every value of the declared set is a fixed point) is false for binary64 for scaled types whose limit has an '
                   'overflowing grid value (they refuse every value).  lazy_number_validation stays False.  Lone-surrogate strings and '
-                  'previous values of a wrong kind are judged for totality only.  Previous values are values __call__ accepts '
-                  '(validate-accepted ones and ones pushed outside the limits).',
+                  'previous values of a wrong kind are judged for totality only, as are candidates that cannot travel as JSON '
+                  'text (ints beyond the str-conversion digit limit, values nested beyond the recursion limit).  Previous values '
+                  'are values __call__ accepts (validate-accepted ones and ones pushed outside the limits).  The conversion-only '
+                  'path is held to OfType + ConvDenotes + totality + idempotence, NOT to the numeric limits (by design of frappy: '
+                  'a value reported by the hardware is converted, not range-checked).  The error path of the model does not '
+                  'contain the text construction: conv answers Err.wrongType directly; raiseBad_is_bad is a separate statement '
+                  'about the helper, tied to the code by the helper stream and by the size stream on the datatype methods.',
     'trusted': [
         'binary64 satisfies the 27 laws of LawfulFloatOps (FrappyModel/Base/Num.lean): order laws, monotonicity of x/scale, k*scale, '
         'round(), x + 0.0, tolerance band; proved for the Rat carrier, re-tested on the doubles of each run',
@@ -49,10 +63,13 @@ META = {
         'frappy.lib.enum.Enum (dict keyed by names and values; EnumMember.__eq__/__hash__)',
         'frappy.properties.HasProperties.checkProperties (DType.WF is what it enforces)',
         'Parameter / Module construction, Dispatcher.handle_request, announceUpdate, export_value of the reply (the `change` stream '
-        'observes the value stored and the error class only; the model changeValue covers import + validate + validate)',
+        'observes the value stored and the error class only; the model changeValue covers import + validate + validate; the '
+        'result stream observes the return value of Command.do and the class of the reply to the do request)',
+        'repr() of Python values (external call of the model shortrepr: a text or the class of an exception)',
     ],
     'assumptions': ['generalConfig.lazy_number_validation is False (default)',
-                    'change requests: a parameter without write_ method, check_ function or limit parameters; do requests: an argument type that is not a struct at the root',
+                    'change requests: a parameter without write_ method, check_ function or limit parameters; do requests: an argument type that is not a struct at the root; '
+                    'command results: commands without argument or with an IntRange(0, 5) argument, the function returns the candidate and raises nothing',
                     'previous is None or a value __call__ returned (it may lie outside the limits)',
                     'dict keys of offered values are strings (struct member names)'],
 }
@@ -405,6 +422,24 @@ class ChangeNode:
         self.restype = self.module.commands['r'].result
         self.restree = dtcodec.dt_to_tree(self.restype)
 
+    def update(self, value):
+        """a driver update `announceUpdate('p', value)`: ('ok', value held) | ('bad', None) | ('other', class) - the error is
+        not raised but stored as readerror (the old value is kept)"""
+        from frappy.errors import RangeError, WrongTypeError
+        pobj = self.module.parameters['p']
+        pobj.readerror = None
+        self.module.announceUpdate('p', value)
+        del self.conn.msgs[:]
+        err = pobj.readerror
+        if err is None:
+            out = ('ok', pobj.value)
+        elif isinstance(err, (RangeError, WrongTypeError)):
+            out = ('bad', None)
+        else:
+            out = ('other', type(err).__name__)
+        again = _outcome(lambda: self.dt(out[1])) if out[0] == 'ok' else None
+        return out, again
+
     def result(self, cname, data, answer):
         """one call of `Command.do` for the command `cname` whose function returns `answer`, directly and as a `do` request:
         (outcome of Command.do, outcome of converting its value again, class of the reply to the request)"""
@@ -492,6 +527,17 @@ def eval_result(case, cn=None):
     return req, _enc(out), rep
 
 
+def eval_update(case, cn=None):
+    """the candidate of a protocol case with mode 'update' handed to announceUpdate (a value from a driver): the value the
+    parameter holds afterwards / the class of the read error, against `call` and the monitor of the conversion path"""
+    if cn is None:
+        cn = ChangeNode(dtcodec.tree_to_dt(case['tree']))
+    out, again = cn.update(dtcodec.json_to_py(case['cand']))
+    req = {'p': 'C01', 'k': 'result', 'dt': cn.tree, 'argdt': None, 'ret': case['cand'],
+           'out': _enc(out), 'again': _enc(again) if again is not None else None}
+    return req, _enc(out)
+
+
 def eval_change(case, cn=None):
     """one `change` request for a protocol case with mode 'node' (prev = the value held); returns (request, outcome)"""
     dt = dtcodec.tree_to_dt(case['tree'])
@@ -561,6 +607,13 @@ def node_stream(ctx, res, cases, ntrees):
             reqs.append(req)
             meta.append((rc, out))
             replies.append((rc, rep))
+        # ... and as driver updates of the parameter (announceUpdate converts with __call__; refused: the old value is kept)
+        for c in answers:
+            uc = {'tree': cn.tree, 'mode': 'update', 'cand': c['cand'], 'prev': None}
+            req, out = eval_update(uc, cn)
+            events.append({'u': c['cand']})
+            reqs.append(req)
+            meta.append((uc, out))
         # the whole history of this parameter (driver updates and change requests, accepted or refused) against `holdRun`
         if dtcodec.encodable(held0) and dtcodec.encodable(cn.held):
             histories.append(({'tree': cn.tree, 'held0': dtcodec.py_to_json(held0), 'events': events},
@@ -580,9 +633,11 @@ def node_stream(ctx, res, cases, ntrees):
         res.evaluations += 1
         res.traces += 1
         res.count({'node': 'stream=node(change request)', 'do': 'stream=node(do request)',
-                   'result': 'stream=node(command result)'}[nc['mode']])
-        res.count({'node': 'node.change=', 'do': 'node.do=', 'result': 'node.result=' + nc.get('cmd', '') + ':'}[nc['mode']]
-                  + out_class(out))
+                   'result': 'stream=node(command result)', 'update': 'stream=node(driver update)'}[nc['mode']])
+        res.count({'node': 'node.change=', 'do': 'node.do=', 'result': 'node.result=' + nc.get('cmd', '') + ':',
+                   'update': 'node.update='}[nc['mode']] + out_class(out))
+        if nc['mode'] == 'update':      # same model and monitor as a command result (`call`): named for what it is
+            ans = dict(ans, judge=[cl.replace(':result', ':update') for cl in ans['judge']])
         if out_class(out) == 'ok':
             res.nontriv(nc)
         if not ans['wf']:
@@ -594,13 +649,15 @@ def node_stream(ctx, res, cases, ntrees):
                                           (':' + out['other'] if clause.startswith('total') else ''),
                                    'what': f'{clause}: ' + (f'change request on a parameter of type {show_dt(nc["tree"])} holding '
                                                             f'{shortened(dtcodec.json_to_py(nc["prev"]))}' if nc['mode'] == 'node' else
+                                                            f'driver update announceUpdate of a parameter of type {show_dt(nc["tree"])} with'
+                                                            if nc['mode'] == 'update' else
                                                             f'Command.do of a command ' +
                                                             (f'with result type {show_dt(nc["tree"])}' if RESULT_COMMANDS[nc['cmd']][1]
                                                              else 'without result type') +
                                                             (f' (argument {nc["data"]!r})' if nc.get('data') is not None else '') +
                                                             ' whose function returns' if nc['mode'] == 'result' else
                                                             f'do request on a command with argument type {show_dt(nc["tree"])}') +
-                                           (', data ' if nc['mode'] != 'result' else ' ') + f'{shortened(dtcodec.json_to_py(nc["cand"]))}: '
+                                           (', data ' if nc['mode'] not in ('result', 'update') else ' ') + f'{shortened(dtcodec.json_to_py(nc["cand"]))}: '
                                            f'{json.dumps(out) if not (isinstance(out, dict) and "ok" in out) else repr(dtcodec.json_to_py(out["ok"]))}',
                                    'case': nc, 'detail': {'clause': clause}})
 
@@ -788,7 +845,10 @@ def run(ctx):
                 'every position), boundary (limits, tolerance band, NaN/inf, huge ints), shape (lengths, arity, members, None). '
                 'length (code-point counts at the limits in ASCII and in characters whose length differs in bytes / UTF-16 units / '
                 'after normalisation), relative (built from the value held), node (the wire cases of a share of the trees as '
-                '`change` requests to a real SecNode).  '
+                '`change` requests to a real SecNode), size (objects / arrays / strings / bytes / ints of many members / elements / '
+                'characters / digits and deep nesting at every position; recipes judged for totality only where the value cannot '
+                'travel as text), command result (every candidate of a tree + a no-answer catalogue as the return value of command '
+                'functions: Command.do and the do request), helper (shortrepr on the candidates, texts compared with the model).  '
                 'Non-trivial = accepted by validate, or a container candidate of the right container kind that is rejected (the '
                 'rejection comes from a length or from below the root); for a change request: accepted')
     rng = ctx.rng
@@ -1074,6 +1134,19 @@ def replay(ctx, rp):
         print('model    :', json.dumps(ans.get('model'))[:200])
         print('judge    :', ans.get('judge'))
         agree = ans.get('model') == out
+        print('model == implementation:', agree)
+        if rp.get('kind') == 'no-failing-input-found':
+            return 0 if agree else 1
+        return 1 if ans.get('judge') else 0
+    if case['mode'] == 'update':
+        req, out = eval_update(case)
+        ans = ctx.driver.batch([req])[0]
+        print('datatype :', show_dt(case['tree']))
+        print('announceUpdate with:', shortened(dtcodec.json_to_py(case['cand'])))
+        print('impl     :', json.dumps(out)[:600], '(value held afterwards / class of the read error); converted again:', json.dumps(req['again'])[:300])
+        print('model    :', json.dumps(ans.get('model'))[:600])
+        print('judge    :', [cl.replace(':result', ':update') for cl in ans.get('judge', [])], '' if ans.get('wf') else '(tree not WF)')
+        agree = canon_out(ans['model']) == canon_out(out)
         print('model == implementation:', agree)
         if rp.get('kind') == 'no-failing-input-found':
             return 0 if agree else 1
